@@ -121,6 +121,41 @@ def _flatten(res):
     return out
 
 
+def _flat_list(res):
+    out = []
+    for x in res:
+        if isinstance(x, tuple):
+            if isinstance(x[1], list):
+                out.extend(_flat_list(x[1]))
+            else:
+                out.append(str(x[1]))
+        else:
+            out.append(str(x))
+    return sorted(out)
+
+
+def _unfold(desc, rid, path=()):
+    """leaves of the complete unfolding of the reference graph below `rid` (one leaf per path), or None if a cycle is reachable"""
+    if rid in path:
+        return None
+    if not (1 <= rid <= len(desc)):
+        return []
+    out = []
+    for e in desc[rid - 1]:
+        subs = [e[1]] if e[0] == "ref" else ([] if e[0] == "val" else [x for x in e[1]])
+        if e[0] == "val":
+            out.append(str(e[1]))
+        for x in subs:
+            if x > 0:
+                r = _unfold(desc, x, path + (rid,))
+                if r is None:
+                    return None
+                out.extend(r)
+            elif e[0] == "complex":
+                out.append(str(-x))
+    return out
+
+
 def _check(U, m, desc, start):
     table = _world(m, len(desc), desc)
     res = _Res(table)
@@ -130,6 +165,10 @@ def _check(U, m, desc, start):
     if o.ok:
         U.ensures("returns the concrete values reachable from the id", _flatten(o.value) == _reachable_values(desc, start),
                   got=sorted(_flatten(o.value)), want=sorted(_reachable_values(desc, start)), desc=desc, start=start)
+        tree = _unfold(desc, start)
+        if tree is not None:
+            U.ensures("without a cycle every stored value is returned once per reference path (nothing dropped, nothing repeated)",
+                      _flat_list(o.value) == sorted(tree), got=_flat_list(o.value), want=sorted(tree), desc=desc, start=start)
         again = U.call(rr.resolve, start)
         U.ensures("a second resolution gives the same result (no state left behind)", again.ok and _flatten(again.value) == _flatten(o.value))
 
@@ -138,6 +177,7 @@ def _entries(n):
     ents = [("val", 7)]
     ents += [("ref", j) for j in range(1, n + 1)]
     ents += [("complex", [j, -9]) for j in range(1, n + 1)]
+    ents += [("complex", [j, -9, j]) for j in range(1, n + 1)]      # the same resource referenced twice by one entry
     return ents
 
 
@@ -153,7 +193,7 @@ def _enum(tier, **_):
                      (AXML, "ARSCParser.ResourceResolver.put_ate_value"), (AXML, "ARSCParser.ResourceResolver.put_item_value")],
       level="bounded",
       note="every reference graph over n <= 3 (thorough: 4) resource ids, one entry per id from {value, reference to any id, complex "
-           "entry with a reference item and a value} (two entries per id for n <= 2): chains and cycles of length 1..n", terminates=True)
+           "entry with a reference item and a value, complex entry referencing the same id twice} (two entries per id for n <= 2): chains and cycles of length 1..n", terminates=True)
 def small_reference_graphs(U):
     m = U.mod(AXML)
     g = U.given or {"n": 2, "combo": [2, 1]}
@@ -186,6 +226,6 @@ def random_reference_graphs(U):
             elif r < 0.7:
                 ents.append(("ref", rng.randint(1, n)))
             else:
-                ents.append(("complex", [rng.randint(1, n), -rng.randint(1, 50)]))
+                ents.append(("complex", [rng.randint(1, n) if rng.random() < 0.6 else -rng.randint(1, 50) for _ in range(rng.randint(1, 4))]))
         desc.append(ents)
     _check(U, m, desc, rng.randint(1, n))
